@@ -94,10 +94,18 @@ def canon_trace(lines):
     return out
 
 
+_TRACE_PREFIXES = ("S ", "query ", "ans ", "calls ", "panic", "T-")
+
+
 def trace_diff(impl, model):
-    it = canon_trace([l for l in impl])
     if "trace" not in model:
         return None
+    # fast path: the model mirrors clause and literal order, so the raw traces are normally identical;
+    # canonicalisation (a function of the lines) is only needed when they are not
+    mi = model[model.index("trace") + 1:]
+    if [l for l in impl if l.startswith(_TRACE_PREFIXES)] == [l for l in mi if l.startswith(_TRACE_PREFIXES)]:
+        return None
+    it = canon_trace([l for l in impl])
     mt = canon_trace(model[model.index("trace") + 1:])
     if it == mt:
         return None
